@@ -35,7 +35,7 @@ def one(diff):
         subprocess.call(['git', '-C', '/repo', 'worktree', 'remove', '--force', wt])
 
 
-with ThreadPoolExecutor(8) as ex:
+with ThreadPoolExecutor(int(os.environ.get("SA_JOBS", "8"))) as ex:
     for diff, out in ex.map(one, diffs):
         if out == 'PATCH-DOES-NOT-APPLY':
             print('%-40s PATCH-DOES-NOT-APPLY' % diff)
